@@ -323,6 +323,9 @@ def _continuations(first, maxlen):
             yield (first,) + sfx
 
 
+SETTER_MAXLEN = 3
+
+
 def check_language(case, ctx):
     """Experiment(schedules=[s]) for every schedule s of the chunk (or the single schedule case['schedule'])."""
     from quara.qcircuit.experiment import Experiment
@@ -334,6 +337,7 @@ def check_language(case, ctx):
 
     item_err, order_err = _errors()
     ls, lp, lg, lm = lists["state"], lists["povm"], lists["gate"], lists["mprocess"]
+    base = Experiment(schedules=[], states=ls, povms=lp, gates=lg, mprocesses=lm)
 
     def one(schedule, codes):
         exp = schedule_ok(schedule, sizes)
@@ -347,11 +351,30 @@ def check_language(case, ctx):
         except Exception as e:  # reported below through the no_other_exception oracle
             got = "other:" + type(e).__name__
         counts[exp] += 1
-        if got == exp or (exp == "either" and (got == "item" or got == "order")):
+        if not (got == exp or (exp == "either" and (got == "item" or got == "order"))):
+            codes = [ALPHABET[c] if isinstance(c, int) else c for c in codes]
+            _compare(ctx, exp, got, f"cfg={case['cfg']} sizes={sizes} schedule={schedule!r}",
+                     {"cfg": case["cfg"], "schedule": codes})
+        if len(schedule) > SETTER_MAXLEN:
             return
-        codes = [ALPHABET[c] if isinstance(c, int) else c for c in codes]
-        _compare(ctx, exp, got, f"cfg={case['cfg']} sizes={sizes} schedule={schedule!r}",
-                 {"cfg": case["cfg"], "schedule": codes})
+        # the same language through the `schedules` setter of an existing experiment (exhaustive up to length 3)
+        before = base.schedules
+        new = [schedule]
+        try:
+            base.schedules = new
+            got2 = "accept"
+        except item_err:
+            got2 = "item"
+        except order_err:
+            got2 = "order"
+        except Exception as e:
+            got2 = "other:" + type(e).__name__
+        if not (got2 == exp or (exp == "either" and (got2 == "item" or got2 == "order"))):
+            codes = [ALPHABET[c] if isinstance(c, int) else c for c in codes]
+            _compare(ctx, exp, got2, f"schedules setter cfg={case['cfg']} sizes={sizes} schedule={schedule!r}",
+                     {"cfg": case["cfg"], "schedule": codes})
+        if not (base.schedules is (new if got2 == "accept" else before)):
+            ctx.check(False, "schedules_setter_state", f"after {got2}: schedules={base.schedules!r} for {schedule!r}")
 
     if "schedule" in case:
         one(decode_schedule(case["schedule"]), case["schedule"])
@@ -971,21 +994,21 @@ FACETS = {
     "setters": {
         "strategy": setters_case,
         "check": check_setters,
-        "budget": {"quick": {"examples": 4000, "shards": 8}, "thorough": {"examples": 120000, "shards": 16}},
+        "budget": {"quick": {"examples": 4000, "shards": 8}, "thorough": {"examples": 60000, "shards": 16}},
         "nontrivial": "constructed successfully, then at least one setter call accepted and at least one rejected (experiment-unchanged checked)",
         "min_nontrivial": 50,
     },
     "tomography_shapes": {
         "strategy": tomo_case,
         "check": check_tomo,
-        "budget": {"quick": {"examples": 3000, "shards": 8}, "thorough": {"examples": 80000, "shards": 16}},
+        "budget": {"quick": {"examples": 3000, "shards": 8}, "thorough": {"examples": 40000, "shards": 16}},
         "nontrivial": "'all' / other string, or a custom list whose members all pass the experiment's rules with >= 2 members or a member of another shape",
         "min_nontrivial": 50,
     },
     "executable": {
         "strategy": executable_case,
         "check": check_executable,
-        "budget": {"quick": {"examples": 1600, "shards": 8}, "thorough": {"examples": 40000, "shards": 16}},
+        "budget": {"quick": {"examples": 1600, "shards": 8}, "thorough": {"examples": 16000, "shards": 16}},
         "nontrivial": "an executed schedule with at least one gate / measurement process between state and povm, or a referenced None placeholder",
         "min_nontrivial": 50,
     },
